@@ -73,11 +73,15 @@ let () =
           let funcs = if f.(4) = "-" then [] else
             List.map (fun fu -> match String.split_on_char ' ' fu with
               | [a; s; p] -> ((z_of_string a, z_of_string s), z_of_string p) | _ -> failwith "func") (String.split_on_char ';' f.(4)) in
-          let frames = run_walk7 (parse_regs f.(1)) (z_of_string f.(2)) (unhex f.(3)) funcs (List.map parse_rec (rest 5)) in
-          print_endline ("W;" ^ String.concat ";" (List.map (fun r ->
-            string_of_z (x_eip r) ^ "," ^ string_of_z (x_esp r) ^ "," ^ string_of_z (x_ebp r)) frames))
+          let show frames = "W;" ^ String.concat ";" (List.map (fun r ->
+            string_of_z (x_eip r) ^ "," ^ string_of_z (x_esp r) ^ "," ^ string_of_z (x_ebp r)) frames) in
+          let recs = List.map parse_rec (rest 5) in
+          let a1 = show (run_walk7 (parse_regs f.(1)) (z_of_string f.(2)) (unhex f.(3)) funcs recs) in
+          (* the same walk over the evaluators COMPILED from walker.rs (Gen/C07WinEval.v) *)
+          let a3 = show (run_walk7_src (parse_regs f.(1)) (z_of_string f.(2)) (unhex f.(3)) funcs recs) in
+          if a1 = a3 then print_endline a1 else print_endline ("D;;record-model=" ^ a1 ^ " source-model=" ^ a3)
         end else
-        let o, o2, kind =
+        let o, o2, o3, kind =
           if f.(0) = "A" then begin
             let recs = List.map parse_rec (rest 7) in
             let cfi_texts = List.filter_map (function RCfi (_, _, t) -> Some (string_of_bytes t) | _ -> None) recs in
@@ -86,7 +90,9 @@ let () =
             run_mock7 (z_of_string f.(1)) (z_of_string f.(2)) (f.(3) = "1") (parse_regs f.(4))
               (z_of_string f.(5)) (unhex f.(6)) recs names,
             run_mock7_text (z_of_string f.(1)) (z_of_string f.(2)) (f.(3) = "1") (parse_regs f.(4))
-              (z_of_string f.(5)) (unhex f.(6)) lines names, 'A'
+              (z_of_string f.(5)) (unhex f.(6)) lines names,
+            run_mock7_src (z_of_string f.(1)) (z_of_string f.(2)) (f.(3) = "1") (parse_regs f.(4))
+              (z_of_string f.(5)) (unhex f.(6)) recs names, 'A'
           end else if f.(0) = "F" then begin
             let below = if f.(1) = "." then [] else
               List.map (fun x -> if x = "-" then None else Some (z_of_string x)) (String.split_on_char ',' f.(1)) in
@@ -94,13 +100,15 @@ let () =
               else Some (if f.(3) = "-" then [] else List.map bytes_of_string (String.split_on_char ',' f.(3))) in
             let lines = List.map bytes_of_string ("MODULE Linux x86 ABCD1234 m1" :: List.map rec_text (rest 6)) in
             run_frames7 below (parse_regs f.(2)) valid (z_of_string f.(4)) (unhex f.(5)) (List.map parse_rec (rest 6)),
-            run_frames7_text below (parse_regs f.(2)) valid (z_of_string f.(4)) (unhex f.(5)) lines, 'F'
+            run_frames7_text below (parse_regs f.(2)) valid (z_of_string f.(4)) (unhex f.(5)) lines,
+            run_frames7_src below (parse_regs f.(2)) valid (z_of_string f.(4)) (unhex f.(5)) (List.map parse_rec (rest 6)), 'F'
           end else begin
             let valid = if f.(2) = "all" then None
               else Some (if f.(2) = "-" then [] else List.map bytes_of_string (String.split_on_char ',' f.(2))) in
             let lines = List.map bytes_of_string ("MODULE Linux x86 ABCD1234 m1" :: List.map rec_text (rest 5)) in
             run_real7 (parse_regs f.(1)) valid (z_of_string f.(3)) (unhex f.(4)) (List.map parse_rec (rest 5)),
-            run_real7_text (parse_regs f.(1)) valid (z_of_string f.(3)) (unhex f.(4)) lines, 'B'
+            run_real7_text (parse_regs f.(1)) valid (z_of_string f.(3)) (unhex f.(4)) lines,
+            run_real7_src (parse_regs f.(1)) valid (z_of_string f.(3)) (unhex f.(4)) (List.map parse_rec (rest 5)), 'B'
           end in
         let render o =
           let st = int_of_z (o_status o) in
@@ -114,9 +122,11 @@ let () =
             let names = List.sort compare (List.map (fun (n, _) -> string_of_bytes n) (o_regs o)) in
             Printf.sprintf "S|valid=%s|regs=%s" (String.concat "," names) (fmt_regs (o_regs o))
           end in
-        let a1 = render o and a2 = render o2 in
-        (* the record-level model (the one the theorems are about) and the text-level model must agree *)
-        if a1 = a2 then print_endline a1 else print_endline ("D;;record-model=" ^ a1 ^ " text-model=" ^ a2)
+        let a1 = render o and a2 = render o2 and a3 = render o3 in
+        (* the record-level model (the one the older theorems are stated about), the text-level model and the model
+           COMPILED from walker.rs / mod.rs on this run (Source.src_walk_frame over Gen/C07WinEval.v) must agree *)
+        if a1 = a2 && a1 = a3 then print_endline a1
+        else print_endline ("D;;record-model=" ^ a1 ^ " text-model=" ^ a2 ^ " source-model=" ^ a3)
       end
     done
   with End_of_file -> ()
